@@ -15,6 +15,7 @@ the reconstruction heuristics themselves are NOT decided):
          targets.setdefault(endpos, clause) (first registration wins) -- sibling agreement across conditional_jump_old/_new/
          _none_impl and the conditional-expression handler; a plain store into targets is allowed only where the stored entry
          replaces the function's own previous entry (guarded by an identity test on targets.get(..)).
+ LIMIT   process_target recognises the clause registered for a jump target before simplifying it (identity of the registered object stops the merge).
  FSTR    a replacement field of an f-string never escapes as a bare ast.FormattedValue: every handler that creates one puts it
          into an ast.JoinedStr (directly, or through the item list BUILD_STRING hands to JoinedStr).  A bare FormattedValue is not
          a valid expression node; the source regenerator and the SQL translator take it for its plain value, so f'{x!r}' or
@@ -143,9 +144,30 @@ def run(ctx):
     C05.pin_store_strong(ctx, prefix='C03-PIN')
     ctx.ob('C03-PIN.ast-cache-keyed-by-pinned-id', df, ks[0] if ks else df.node, ok, '' if ok else 'ast_cache key is %s' % [norm(s.value) for s in ks])
     C05.key_rule(ctx, only={'decompile'}, prefix='C03-KEY', floor=1)
+    # ---------------------------------------------------------------- LIMIT
+    # process_target merges the clauses on the stack down to the clause REGISTERED for the jump target, recognised by object identity (`top is
+    # limit`).  simplify() replaces a one-item clause by its item, so the identity test has to look at the clause before it is simplified;
+    # otherwise a one-item clause is not recognised, merging runs on into the enclosing conditions, and the generator's `if` filter ends up inside
+    # the conditional expression of its element.
+    pt = repo.fn('pony.orm.decompiling', 'Decompiler.process_target')
+    wl = [s for s in walk_no_nested(pt.node) if isinstance(s, ast.While)]
+    ctx.need(len(wl) == 1, 'C03-LIMIT: merge loop not found in process_target')
+    body = wl[0].body
+    def first_index(pred):
+        for i, st in enumerate(body):
+            if any(pred(x) for x in ast.walk(st)): return i
+        return None
+    i_id = first_index(lambda x: isinstance(x, ast.Compare) and len(x.ops) == 1 and isinstance(x.ops[0], ast.Is) and norm(x.left) == 'top' and norm(x.comparators[0]) == 'limit')
+    i_simpl = first_index(lambda x: isinstance(x, ast.Assign) and any(dotted(t) == 'top' for t in x.targets) and isinstance(x.value, ast.Call) and dotted(x.value.func) == 'simplify')
+    ok = i_id is not None and (i_simpl is None or i_id < i_simpl)
+    ctx.ob('C03-LIMIT.registered-clause-recognised-before-simplification', pt, wl[0], ok,
+           '' if ok else 'in the merge loop `top is limit` is first evaluated after `top = simplify(top)`: a registered clause with a single item is replaced by that item and never '
+           'recognised, so merging continues into the enclosing clauses (the filter of a generator is absorbed by the conditional expression of its element)', node=wl[0],
+           expected='test `top is limit` on the clause before simplify() is applied to it')
 
 
 MUTANTS = [
+    dict(id='C03-l1', file='pony/orm/decompiling.py', fn='Decompiler.process_target', old="            reached_limit = top is limit  # simplify() may replace a one-item clause with its item\n            top = simplify(top)\n            if reached_limit or top is limit:", new="            top = simplify(top)\n            if top is limit:", expect='C03-LIMIT'),
     dict(id='C03-f1', file='pony/orm/decompiling.py', fn='Decompiler.formatted_value', old="        return ast.JoinedStr([ast.FormattedValue(value=value, conversion=conversion, format_spec=format_spec)])", new="        return ast.FormattedValue(value=value, conversion=conversion, format_spec=format_spec)", expect='C03-FSTR'),
     dict(id='C03-m1', file='pony/orm/decompiling.py', fn='Decompiler.conditional_jump_none_impl', old='        decompiler.targets.setdefault(endpos, clause)', new='        decompiler.targets[endpos] = clause', expect='C03-TARGETS'),
     dict(id='C03-m2', file='pony/orm/decompiling.py', fn='Decompiler.decompile', old="            if method is None:\n                throw(DecompileError('Unsupported operation: %s' % opname))\n", new="            if method is None: continue\n", expect='C03-REJECT'),
